@@ -712,7 +712,7 @@ def def_alternatives(F, X, body, op, depth=4, want=None, keep=(), _seen=None, _f
         """dominance facts, or (pathwise) one fact set per acyclic path to bb"""
         if not pathwise:
             return [facts(b, bb)]
-        paths = lib.path_conditions(b, bb)
+        paths = lib.local_path_conditions(b, bb)
         if not paths:
             return [facts(b, bb)]
         outp = []
@@ -794,8 +794,25 @@ def def_alternatives(F, X, body, op, depth=4, want=None, keep=(), _seen=None, _f
     for (bi, si, proj, kind, payload, sp) in body.defs.get(l, []):
         if proj and not all(p["k"] == "deref" for p in proj):
             continue
-        for vf0, cf0 in facts_list(body, bi):
-            _def_one(bi, kind, payload, sp, vf0, cf0)
+        # the definitions reached through this assignment are computed once; each path's facts are then prefixed
+        start = len(out)
+        _def_one(bi, kind, payload, sp, [], [])
+        new = out[start:]
+        del out[start:]
+        fl = facts_list(body, bi)
+        if len(fl) > 1:
+            seenf, uniq = set(), []
+            for vf0, cf0 in fl:
+                k = (tuple((show(fe), t) for fe, t in vf0), tuple((show(x), o, show(y)) for x, o, y in cf0))
+                if k not in seenf:
+                    seenf.add(k)
+                    uniq.append((vf0, cf0))
+            fl = uniq
+        if len(fl) * len(new) + len(out) > 4096:
+            fl = [facts(body, bi)]           # too many path combinations: fall back to the dominance facts
+        for vf0, cf0 in fl:
+            for e, vf, cf, wh in new:
+                out.append((e, vf0 + vf, cf0 + cf, wh))
     return out
 
 
